@@ -198,6 +198,12 @@ Definition bc_wf (num_regs : Z) (fuse : bool) (p : bprog) : bool :=
      | None => false
      end.
 
+(** not part of the contract of C11, checked for C13 (no panic while compiling): a [live] mask
+    names register temporaries only (bits below [min num_regs 16]) — the JIT's save/restore code
+    unwraps the register of every set bit from 4 up *)
+Definition live_regs_ok (num_regs : Z) (p : bprog) : bool :=
+  forallb (fun l => (0 <=? l) && bset_sub l (reg_mask num_regs)) (bp_live p).
+
 (** which rule rejects (for the replay record): 0 = accepted *)
 Definition bc_wf_why (num_regs : Z) (fuse : bool) (p : bprog) : Z :=
   let code := bp_code p in
